@@ -300,3 +300,91 @@ pub fn ref_sign_step(s: &mut RefSign, m: RefMsg) -> (RefReply, RefEffect) {
         RefMsg::Other => (RefReply::None, RefEffect::Keep),
     }
 }
+
+// ------------------------------------------------------------------------------------------------
+// Frame text format (frame.rs "Format Details"): ':' LL AAAA TT DD.. CC [CR LF], hex pairs,
+// LL = number of data bytes, CC = two's complement of the sum of all other bytes (LRC).
+
+/// Hex end offset if `b` has the documented shape (':' + >=5 hex pairs + optional single CRLF).
+pub fn ref_shape_end(b: &[u8]) -> Option<usize> {
+    regex::contract::ref_shape_end(b)
+}
+
+pub fn ref_pair(b: &[u8], i: usize) -> u8 {
+    let hi = match hex_val(b[i]) {
+        Some(v) => v,
+        None => 0,
+    };
+    let lo = match hex_val(b[i + 1]) {
+        Some(v) => v,
+        None => 0,
+    };
+    hi * 16 + lo
+}
+
+#[derive(Debug, Clone, Copy, PartialEq, Eq)]
+pub enum RefDecode {
+    Malformed,
+    LenMismatch { declared: usize, actual: usize },
+    BadChecksum { declared: u8, computed: u8 },
+    /// data byte i is `ref_pair(b, 9 + 2*i)`
+    Ok { addr: u16, ty: u8, n: usize },
+}
+
+/// Independent decoder: shape, then declared length, then checksum — in that order.
+pub fn ref_decode(b: &[u8]) -> RefDecode {
+    let end = match ref_shape_end(b) {
+        Some(e) => e,
+        None => return RefDecode::Malformed,
+    };
+    let n = (end - 11) / 2;
+    let declared = ref_pair(b, 1);
+    if declared as usize != n {
+        return RefDecode::LenMismatch { declared: declared as usize, actual: n };
+    }
+    let mut sum: u8 = 0;
+    let mut i = 1;
+    while i < end - 2 {
+        sum = sum.wrapping_add(ref_pair(b, i));
+        i += 2;
+    }
+    let computed = 0u8.wrapping_sub(sum);
+    let given = ref_pair(b, end - 2);
+    if computed != given {
+        return RefDecode::BadChecksum { declared: given, computed };
+    }
+    RefDecode::Ok { addr: (ref_pair(b, 3) as u16) << 8 | ref_pair(b, 5) as u16, ty: ref_pair(b, 7), n }
+}
+
+/// Reference encoder into a caller-provided buffer of exactly 11 + 2*data.len() bytes.
+pub fn ref_encode(addr: u16, ty: u8, data: &[u8], out: &mut [u8]) {
+    let n = data.len();
+    out[0] = b':';
+    let mut sum: u32 = 0;
+    let mut put = |out: &mut [u8], pos: usize, v: u8| {
+        out[pos] = HEX_UPPER[(v >> 4) as usize];
+        out[pos + 1] = HEX_UPPER[(v & 15) as usize];
+    };
+    put(out, 1, n as u8);
+    put(out, 3, (addr >> 8) as u8);
+    put(out, 5, (addr & 0xFF) as u8);
+    put(out, 7, ty);
+    sum += (n as u8) as u32 + (addr >> 8) as u32 + (addr & 0xFF) as u32 + ty as u32;
+    let mut i = 0;
+    while i < n {
+        put(out, 9 + 2 * i, data[i]);
+        sum += data[i] as u32;
+        i += 1;
+    }
+    // the checksum is the byte that makes everything add up to 0 mod 256
+    let c = ((256 - (sum % 256)) % 256) as u8;
+    put(out, 9 + 2 * n, c);
+}
+
+pub fn to_upper_hex(c: u8) -> u8 {
+    if c >= b'a' && c <= b'f' {
+        c - 32
+    } else {
+        c
+    }
+}
